@@ -35,6 +35,9 @@ def is_proxy(x):
 
 class Vec(object):
     """user class with operator overloads, properties, __bool__, __len__, context-manager protocol"""
+    # a twin under the exposed prefix of a PUBLIC attribute: where the plain name is allowed and present it is the plain
+    # attribute that a proxy reads and writes, exactly as on the target itself
+    exposed_entered = "twin"
 
     def __init__(self, *xs):
         self.xs = list(xs)
@@ -486,6 +489,7 @@ def explore_same_proxy(kind, mode):
     live proxy receives a, b, a again - for every operation a that leaves the initial target unchanged (an observer) and
     every operation b - and each step is compared with the twin: a proxy must not answer from memory."""
     env.silence_unraisable()
+    _twin_for(mode)
     mk = KINDS[kind]
     ops = [(l, f) for l, f in ops_for(kind) if not (l in OUT_OF_SCOPE or l in OUT_OF_SCOPE_PER_KIND.get(kind, ()) or l.startswith("cls:"))]
     viol = []
@@ -611,7 +615,18 @@ def check_buffiter(idx, nchunks):
     return n[0], viol
 
 
+def _twin_for(mode):
+    """the exposed-prefix twin of Vec.entered exists only where the plain name is itself allowed (classic, public): in the
+    default mode the policy - by design - serves the twin in place of the refused plain name, which is C06's subject"""
+    if mode == "default":
+        if "exposed_entered" in Vec.__dict__:
+            delattr(Vec, "exposed_entered")
+    else:
+        Vec.exposed_entered = "twin"
+
+
 def run_kind(kind, mode, depth, class_first=False):
+    _twin_for(mode)
     return explore_kind(kind, mode, depth, class_first)
 
 
